@@ -19,6 +19,24 @@ type groupIn struct {
 	Mode  string
 	Reps  int
 	Files int // fragments are spread over this many files (location order = vertex order)
+	Twins [][]int // classes of fragments that carry IDENTICAL syntax trees (all other fragments carry pairwise very different trees); empty = no trees at all
+}
+
+// tree of a fragment: members of one twin class get the same shape and labels, everybody else a shape of its own
+func groupTree(class int) *analyzer.TreeNode {
+	id := 0
+	mk := func(l string) *analyzer.TreeNode { id++; return analyzer.NewTreeNode(id, l) }
+	root := mk("FunctionDef(f)")
+	cur := root
+	for d := 0; d < 3+class%5; d++ {
+		n := mk(fmt.Sprintf("Shape%d_%d", class, d))
+		cur.AddChild(n)
+		for k := 0; k < 1+(class+d)%3; k++ {
+			n.AddChild(mk(fmt.Sprintf("Leaf%d_%d_%d", class, d, k)))
+		}
+		cur = n
+	}
+	return root
 }
 
 func init() {
@@ -42,6 +60,21 @@ func init() {
 				file := fmt.Sprintf("/p/f%03d.py", i*in.Files/in.N)
 				frags[i] = &analyzer.CodeFragment{Location: &analyzer.CodeLocation{FilePath: file, StartLine: 10 * (i + 1), EndLine: 10*(i+1) + 5, StartCol: 0, EndCol: 0}, Size: 30, LineCount: 6}
 				idx[frags[i]] = i
+			}
+			if len(in.Twins) > 0 {
+				class := map[int]int{}
+				for ci, tw := range in.Twins {
+					for _, v := range tw {
+						class[v] = ci
+					}
+				}
+				for i := 0; i < in.N; i++ {
+					c, ok := class[i]
+					if !ok {
+						c = len(in.Twins) + i
+					}
+					frags[i].TreeNode = groupTree(c)
+				}
 			}
 			var pairs []*analyzer.ClonePair
 			for _, p := range in.Pairs {
